@@ -70,8 +70,8 @@ func init() {
 			"then the ending {Stop all, cancel, Close, subscriptions closed}: the router closes itself and Run returns nil (start-up of Run failed: IsClosed() becomes true), a second Run is refused. Scripted subscribers of this class end a subscription (context cancelled / Close) only once the harness has allowed that handler to end, " +
 			"which it does before every step that is meant to end it: a handler torn down by the router without being asked to stays observable. " +
 			"close-timeout part: CloseTimeout 20..50 ms; 1..3 handlers (optionally one of them added after Run and started by RunHandlers), each has handled a message; then {1..3 handler functions are busy with a message - held inside the handler function or inside Publish of the handler's publisher - when {the Run context is cancelled, every handler is stopped, Close is called (1..2 concurrent calls), the subscribers close every subscription, cancel and Close together}; " +
-			"1..2 handlers were added after Run and never started - no RunHandlers call, or one whose Subscribe was refused - when {Close is called, the Run context is cancelled and then Close is called}} x release {after the close has run into CloseTimeout (quiescence with the CloseTimeout timer counted as a pending timer), 0..2xCloseTimeout after the event} x {scripted, GoChannel} x repeats. " +
-			"Whatever Close returned: once the busy handler functions have returned, Close has returned, the router is closed, Run has returned nil, a second Run is refused, and optionally a further Close call returns. (Cancel with a never-started handler: whether Run returns before the Close call is counted in closeto_obs_*, not judged.) " +
+			"1..2 handlers were added after Run and never started - no RunHandlers call, or one whose Subscribe was refused - optionally after 1..all of the started handlers were stopped - when {Close is called, the Run context is cancelled}} x release {after the close has run into CloseTimeout (quiescence with the CloseTimeout timer counted as a pending timer), 0..2xCloseTimeout after the event} x {scripted, GoChannel} x repeats. " +
+			"Whatever Close returned: once the busy handler functions have returned, Close has returned, the router is closed, Run has returned nil, a second Run is refused, and optionally a further Close call returns. (Run context cancelled with a handler added after Run and never started: clause cancel-not-honoured-with-unstarted-handler when Run never returns.) " +
 			"Oracle: when Running() is observed closed every handler added before Run holds a subscription and a message emitted at that instant is handled; exactly one Subscribe per handler whatever the number of RunHandlers calls; after Started(): Stop() does not panic, Stopped() is non-nil and closes; " +
 			"after stopping a handler, handlers that do not share its publisher still handle new messages; when the last handler ends or the Run context is cancelled Run returns nil (quiescence detector); a second Run returns an error. " +
 			"Non-trivial: forced point reached / in-flight stage reached / program contained RunHandlers repetition, a Stop or a post-Running emission / the start-up event was issued with >= 1 handler still to start (or before Running() closed) / >= 1 call was refused / >= 1 RunHandlers (or Run) call returned an injected start-up error and was retried / >= 1 close ran into CloseTimeout (Close returned an error or the router logged that its own close failed). Distinct = (program, hook fingerprint).",
@@ -1173,6 +1173,8 @@ type world struct {
 	releases []func()
 	// wo: how the quiescence detector treats the router's CloseTimeout timer (1 h: not a timer; short: a visible timer)
 	wo vlib.WaitOpts
+	// runNeverClause, if set, is the clause reported when Run never returns (default run-never-returned)
+	runNeverClause string
 	// abandoned: the case ends without teardown (see stillOpen)
 	abandoned bool
 	// mkSub, if set, supplies the subscriber handed to the router for a handler (default: the scripted subscriber / the GoChannel)
@@ -1410,7 +1412,11 @@ func (w *world) judgeEnd(what string, closeDone chan struct{}) {
 	oc, d := vlib.WaitClosed(w.runDone, w.wo)
 	switch {
 	case oc == vlib.Stuck:
-		res.Fail("run-never-returned", "%s: Run never returned (quiescent): %s", what, w.spec)
+		clause := "run-never-returned"
+		if w.runNeverClause != "" {
+			clause = w.runNeverClause
+		}
+		res.Fail(clause, "%s: Run never returned (quiescent): %s", what, w.spec)
 		res.Witness = d
 	case oc == vlib.Inconclusive:
 		res.Inconclusive("Run: neither returned nor quiescent")
